@@ -24,7 +24,7 @@ CHECK_DEADLOCK FALSE
 """
 
 ALPH_ASCII = ['a', 'A', 'b', 'B', 'z', 'Z', '1', '-', '_', '.', ':', ',', ';', '+', '=', '/', '@', '#', '!', '&', '*', '~', '|', '^', '$', '?', '<', '>', '[', ']', '{', '}', "'", '"', '\\']
-ALPH_WIDE = ['é', 'É', 'ü', 'Ü', 'ñ', 'Ñ', 'ж', 'Ж', 'λ', 'Λ', 'ø', 'Ø', 'å', 'Å', 'ç', 'Ç', 'д', 'Д']
+ALPH_WIDE = ['ａ', 'Ａ', 'ｚ', 'Ｚ', 'é', 'É', 'ü', 'Ü', 'ñ', 'Ñ', 'ж', 'Ж', 'λ', 'Λ', 'ø', 'Ø', 'å', 'Å', 'ç', 'Ç', 'д', 'Д']
 
 
 def names(rng, alph, n, maxlen=4):
@@ -117,6 +117,10 @@ def run(ctx):
             creds = {'roles': []}
         else:
             creds = {'roles': nm, 'user_id': 'u'}
+        # an empty target with a role spelled like the un-substituted template: still a missing key
+        if any(not isinstance(p_, str) for p_ in parts) and rng.random() < 0.15:
+            target = {}
+            creds = {'roles': [ev.template_text([ev.lit(p_) if isinstance(p_, str) else p_ for p_ in parts]), casevar('%(k)s', rng), 'x']}
         # non-string target values are substituted by their string form
         if target and rng.random() < 0.05:
             k0 = list(target)[0]
